@@ -150,10 +150,18 @@ func (s *store) Drop() {
 }
 func (s *store) NewBatch() kvdb.Batch { return &batch{Batch: s.Store.NewBatch(), s: s} }
 
+// batch reports its size the way the LevelDB and Pebble batches do (sum of value lengths, one per delete), not the way
+// the in-memory batch does (keys count too): callers must not read more into ValueSize than "some measure of the data".
 type batch struct {
 	kvdb.Batch
-	s *store
+	s    *store
+	size int
 }
+
+func (b *batch) Put(k, v []byte) error { b.size += len(v); return b.Batch.Put(k, v) }
+func (b *batch) Delete(k []byte) error { b.size++; return b.Batch.Delete(k) }
+func (b *batch) ValueSize() int        { return b.size }
+func (b *batch) Reset()                { b.size = 0; b.Batch.Reset() }
 
 func (b *batch) Write() error {
 	var err error
